@@ -49,15 +49,20 @@ abbrev Decoder := Bytes → DecResult
 /-- sides of the known defect sites (HACKING.md): all `false` = the pinned tree.
 `injectLE`: inner loop `l <= len(b)` instead of `l < len(b)` (simulation.go:368);
 `injectSkipErr`: a prefix that decodes to U+FFFD is skipped (`continue`) instead of consumed (:373-378);
-`setSizeEvent`: SetSize calls `s.resize()` instead of `s.back.Resize(w, h)` (:417). -/
+`setSizeEvent`: SetSize calls `s.resize()` instead of `s.back.Resize(w, h)` (:417);
+`lastColClean`: drawCell marks the cell clean before the early return for a wide rune in the last column (:195-199);
+`combElide`: a rune that is not encodable is substituted (fallback / raw ASCII / `?`) only when nothing has been emitted
+yet, i.e. combining runes are elided as on the real screen (:214-223). -/
 structure SimVariant where
   injectLE : Bool := false
   injectSkipErr : Bool := false
   setSizeEvent : Bool := false
+  lastColClean : Bool := false
+  combElide : Bool := false
 deriving DecidableEq, Repr, Inhabited
 
 def SimVariant.pinned : SimVariant := {}
-def SimVariant.repaired : SimVariant := { injectLE := true, injectSkipErr := true, setSizeEvent := true }
+def SimVariant.repaired : SimVariant := { injectLE := true, injectSkipErr := true, setSizeEvent := true, lastColClean := true, combElide := true }
 
 structure Sim where
   physw : Int := 80
@@ -97,9 +102,10 @@ def setFront (s : Sim) (x y : Int) (c : SimCell) : Sim :=
 
 /-- one iteration of the rune loop of drawCell (simulation.go:202-228): the simulator's fallback rules —
 fallback map first, then a printable ASCII rune raw, then `?` only when nothing has been emitted; no ACS. -/
-def encStep (enc : Encoder) (fb : RuneMap) (bytes : Bytes) (r : Rune) : Bytes :=
+def encStep (v : SimVariant) (enc : Encoder) (fb : RuneMap) (bytes : Bytes) (r : Rune) : Bytes :=
   let e := enc r
   if e.out.isEmpty || e.out.head? == some 0x1A then
+    if v.combElide && !bytes.isEmpty then bytes else
     match fb.get? r with
     | some subst => bytes ++ subst
     | none =>
@@ -108,45 +114,45 @@ def encStep (enc : Encoder) (fb : RuneMap) (bytes : Bytes) (r : Rune) : Bytes :=
       else bytes
   else bytes ++ e.out
 
-def simBytes (enc : Encoder) (fb : RuneMap) (runes : List Rune) : Bytes :=
-  runes.foldl (encStep enc fb) []
+def simBytes (v : SimVariant) (enc : Encoder) (fb : RuneMap) (runes : List Rune) : Bytes :=
+  runes.foldl (encStep v enc fb) []
 
 /-- the style resolution of drawCell (:175): `if style == StyleDefault { style = s.style }` -/
 def resolve (s : Sim) (st : Style) : Style := if st = {} then s.style else st
 
 /-- what drawCell stores for the cell (x,y) when it draws it (simulation.go:173-229) -/
-def render (enc : Encoder) (s : Sim) (x y : Int) : SimCell :=
+def render (v : SimVariant) (enc : Encoder) (s : Sim) (x y : Int) : SimCell :=
   let (mainc, combc, style, width) := s.back.getContent x y
   if x > s.physw - width then
     { bytes := [32], style := s.resolve style, runes := [32] }
   else
-    { bytes := simBytes enc s.fallback (mainc :: combc), style := s.resolve style, runes := mainc :: combc }
+    { bytes := simBytes v enc s.fallback (mainc :: combc), style := s.resolve style, runes := mainc :: combc }
 
 /-- simulation.go:163 drawCell; returns the new state and the width -/
-def drawCell (enc : Encoder) (s : Sim) (x y : Int) : Sim × Int :=
+def drawCell (v : SimVariant) (enc : Encoder) (s : Sim) (x y : Int) : Sim × Int :=
   let width := (s.back.getContent x y).2.2.2
   if !s.back.dirty x y then (s, width)
   else if ¬ s.inPhys x y then (s, width)
-  else if x > s.physw - width then
+  else if x > s.physw - width ∧ !v.lastColClean then
     -- early return: the cell is NOT marked clean (:195-199)
-    (s.setFront x y (s.render enc x y), width)
+    (s.setFront x y (s.render v enc x y), width)
   else
-    ({ (s.setFront x y (s.render enc x y)) with back := s.back.setDirty x y false }, width)
+    ({ (s.setFront x y (s.render v enc x y)) with back := s.back.setDirty x y false }, width)
 
 /-- inner loop of draw (:268-271): `for x := 0; x < w; x++ { width := drawCell(x,y); x += width-1 }`; `n` is fuel
 (`w` suffices: GetContent reports width ≥ 1 for every in-range cell) -/
-def drawRow (enc : Encoder) (y : Int) : Nat → Sim → Int → Sim
+def drawRow (v : SimVariant) (enc : Encoder) (y : Int) : Nat → Sim → Int → Sim
   | 0, s, _ => s
   | n + 1, s, x =>
     if x < s.back.w then
-      let (s', width) := s.drawCell enc x y
-      drawRow enc y n s' (x + width)
+      let (s', width) := s.drawCell v enc x y
+      drawRow v enc y n s' (x + width)
     else s
 
 /-- rows `y0 .. y0+n-1` -/
-def drawRows (enc : Encoder) : Nat → Sim → Int → Sim
+def drawRows (v : SimVariant) (enc : Encoder) : Nat → Sim → Int → Sim
   | 0, s, _ => s
-  | n + 1, s, y => drawRows enc n (drawRow enc y s.back.w.toNat s 0) (y + 1)
+  | n + 1, s, y => drawRows v enc n (drawRow v enc y s.back.w.toNat s 0) (y + 1)
 
 /-- simulation.go:237 showCursor -/
 def showCursor (s : Sim) : Sim :=
@@ -157,10 +163,10 @@ def clearScreen (s : Sim) : Sim :=
   { s with front := fun _ _ => { bytes := [88], style := {}, runes := [88] }, clear := false }
 
 /-- simulation.go:263 draw -/
-def draw (enc : Encoder) (s : Sim) : Sim :=
+def draw (v : SimVariant) (enc : Encoder) (s : Sim) : Sim :=
   let s := { s with cursorvis := false }
   let s := if s.clear then s.clearScreen else s
-  let s := drawRows enc s.back.h.toNat s 0
+  let s := drawRows v enc s.back.h.toNat s 0
   s.showCursor
 
 /-- simulation.go:314 resize -/
@@ -170,14 +176,14 @@ def resize (s : Sim) : Sim :=
   else s
 
 /-- simulation.go:247 Show -/
-def showScr (enc : Encoder) (s : Sim) : Sim := (s.resize).draw enc
+def showScr (v : SimVariant) (enc : Encoder) (s : Sim) : Sim := (s.resize).draw v enc
 
 /-- simulation.go:393 Sync -/
-def sync (enc : Encoder) (s : Sim) : Sim :=
+def sync (v : SimVariant) (enc : Encoder) (s : Sim) : Sim :=
   let s := { s with clear := true }
   let s := s.resize
   let s := { s with back := s.back.invalidate }
-  s.draw enc
+  s.draw v enc
 
 /-- simulation.go:226 ShowCursor -/
 def setCursor (s : Sim) (x y : Int) : Sim := ({ s with cursorx := x, cursory := y }).showCursor
